@@ -532,6 +532,147 @@ func runC05(c *Ctx) {
 				Basis: "a lookup of the same key with Session.mutex held for writing dominates the insertion", Detail: "the host is inserted on the strength of a lookup made before the write lock was taken: two goroutines that both miss the same new address both insert, the index keeps the second host and the MAC entry lists both"})
 		})
 	}
+	// ... and the decision "another MAC holds the address: remove its host first" is taken on that same lookup: the host
+	// tested against nil in front of deleteHost is the one the write-locked lookup returned (a `:=` in the re-lookup
+	// shadows the result variable, and the test then sees what the read-locked fast path found)
+	if fn := c.A.Method("", "Session", "findOrCreateHostWithLock"); fn != nil {
+		fi := an.Info[fn]
+		wLocked := map[ssa.Value]bool{}
+		anyLookup := map[ssa.Value]bool{}
+		var lockCall ssa.Instruction
+		core.EachInstr(fn, func(j ssa.Instruction) {
+			if lk, isL := j.(*ssa.Lookup); isL && strings.HasSuffix(norm(lk.X), ".HostTable.Table") {
+				anyLookup[lk] = true
+				if fi != nil && fi.MustIn[j][locks.Held{Class: "Session.mutex", Mode: "W"}] {
+					wLocked[lk] = true
+				}
+			}
+			if cj, ok := j.(ssa.CallInstruction); ok && lockCall == nil && strings.HasSuffix(core.CalleeName(cj), "RWMutex).Lock") && strings.HasSuffix(norm(cj.Common().Args[0]), ".mutex") {
+				lockCall = j
+			}
+		})
+		fromLocked := func(v ssa.Value) (locked, unlocked bool) {
+			for w := range dataSlice(fn, v) {
+				if anyLookup[w] {
+					if wLocked[w] {
+						locked = true
+					} else {
+						unlocked = true
+					}
+				}
+			}
+			return
+		}
+		n := 0
+		for _, site := range callsIn(fn, nameIs("deleteHost")) {
+			// the nil test that guards the call
+			for _, g := range guardsOf(site.(ssa.Instruction)) {
+				bo, ok := g.Cond.(*ssa.BinOp)
+				if !ok || (norm(bo.Y) != "nil" && norm(bo.X) != "nil") {
+					continue
+				}
+				tested := bo.X
+				if norm(bo.X) == "nil" {
+					tested = bo.Y
+				}
+				n++
+				st, det := core.Proved, ""
+				if ld, isLoad := tested.(*ssa.UnOp); isLoad && ld.Op == token.MUL {
+					if al, isAl := ld.X.(*ssa.Alloc); isAl && lockCall != nil {
+						// a variable in memory: every path from taking the write lock to the test stores the locked lookup's result
+						stores := func(j ssa.Instruction) bool {
+							s, ok := j.(*ssa.Store)
+							if !ok || s.Addr != ssa.Value(al) {
+								return false
+							}
+							l, u := fromLocked(s.Val)
+							return l && !u
+						}
+						if reachesWithout(lockCall, bo, stores) {
+							st, det = core.Violated, "the host tested against nil in front of deleteHost is read from "+norm(ld.X)+", which is not assigned from the write-locked lookup on every path from mutex.Lock(): the decision is taken on what the read-locked fast path found"
+						}
+					} else {
+						st, det = core.Undecided, "the tested host is loaded from "+norm(ld.X)
+					}
+				} else {
+					l, u := fromLocked(tested)
+					if !l || u {
+						st, det = core.Violated, "the host tested against nil in front of deleteHost does not come (only) from the lookup made with the write lock held"
+					}
+				}
+				r.Add(core.Obligation{Rule: "pairing", Key: "pairing findOrCreateHostWithLock decides the takeover on the write-locked lookup", Func: core.FuncName(fn), Pos: c.P.Pos(core.PosOf(site.(ssa.Instruction))), Status: st,
+					Basis: "the host compared with nil in front of deleteHost is the result of the lookup made under mutex.Lock()", Detail: det})
+			}
+		}
+		if n == 0 {
+			r.Add(core.Obligation{Rule: "pairing", Key: "pairing findOrCreateHostWithLock decides the takeover on the write-locked lookup", Func: core.FuncName(fn), Status: core.Undecided, Detail: "no nil test in front of deleteHost was found"})
+		}
+	}
+	// the same for the other table mutation that is decided on an earlier look: purge selects the hosts to delete while it
+	// holds only their row locks and deletes them afterwards by address. The deletion is decided again under the write
+	// lock: the host is looked up with the mutex held, and the call is control dependent on that host's Online flag and
+	// LastSeen (a frame parsed in between brings the host back - or gives the address to another station - and the
+	// deletion by address would remove an online host without a trace)
+	if pg := c.A.Method("", "Session", "purge"); pg != nil {
+		fi := an.Info[pg]
+		n := 0
+		for _, site := range callsIn(pg, nameIs("deleteHost")) {
+			ins := site.(ssa.Instruction)
+			n++
+			var lookups []ssa.Value
+			for _, lk := range callsIn(pg, nameIs("findIP")) {
+				li := lk.(ssa.Instruction)
+				if len(lk.Common().Args) == 2 && norm(lk.Common().Args[1]) == norm(site.Common().Args[1]) && core.InstrDominates(li, ins) &&
+					fi != nil && fi.MustIn[li][locks.Held{Class: "Session.mutex", Mode: "W"}] {
+					if v, ok := li.(ssa.Value); ok {
+						lookups = append(lookups, v)
+					}
+				}
+			}
+			online, seen := false, false
+			for _, g := range guardsOf(ins) {
+				vals := dataSlice(pg, g.Cond)
+				// a condition assembled with && / || is a φ: what decides which edge is taken is part of it
+				for w := range dataSlice(pg, g.Cond) {
+					if ph, isPhi := w.(*ssa.Phi); isPhi {
+						for _, pred := range ph.Block().Preds {
+							for _, gg := range guardsOf(pred.Instrs[len(pred.Instrs)-1]) {
+								for x := range dataSlice(pg, gg.Cond) {
+									vals[x] = true
+								}
+							}
+						}
+					}
+				}
+				for w := range vals {
+					fa, ok := w.(*ssa.FieldAddr)
+					if !ok {
+						continue
+					}
+					for _, lk := range lookups {
+						if fa.X == lk {
+							switch fieldOwner(fa) {
+							case "packet.Host.Online":
+								online = true
+							case "packet.Host.LastSeen":
+								seen = true
+							}
+						}
+					}
+				}
+			}
+			st, det := core.Proved, ""
+			if len(lookups) == 0 || !online || !seen {
+				st = core.Violated
+				det = fmt.Sprintf("purge deletes %s on the strength of the selection it made before it took the session mutex (look-up under the write lock: %v, Online re-examined: %v, LastSeen re-examined: %v): a frame parsed between the selection and the deletion brings the host online again, and it is deleted all the same - an online host that is in no table, with no offline notification", norm(site.Common().Args[1]), len(lookups) > 0, online, seen)
+			}
+			r.Add(core.Obligation{Rule: "pairing", Key: fmt.Sprintf("pairing purge deletion %d is decided again under the write lock", n), Func: core.FuncName(pg), Pos: c.P.Pos(core.PosOf(ins)), Status: st,
+				Basis: "findIP(addr) with Session.mutex held for writing dominates the call, which is control dependent on that host's Online and LastSeen", Detail: det})
+		}
+		if n == 0 {
+			r.Add(core.Obligation{Rule: "pairing", Key: "pairing purge deletion", Func: core.FuncName(pg), Status: core.Undecided, Detail: "no deleteHost call in purge"})
+		}
+	}
 	// pairing: creation
 	if fn := c.A.Method("", "Session", "findOrCreateHostWithLock"); fn != nil {
 		var hostLit *ssa.Alloc
@@ -1014,6 +1155,41 @@ func runC06(c *Ctx) {
 			}
 			r.Add(core.Obligation{Rule: "frame-marked", Key: fmt.Sprintf("frame-marked Parse transition site %d", k+1), Func: core.FuncName(parse), Pos: c.P.Pos(core.PosOf(ins)), Status: st,
 				Basis: "frame.flags = markOnlineTransition() follows the transition on every path", Detail: "after onlineTransition the frame is not marked with markOnlineTransition(): notify will not emit the offline notifications of the superseded addresses before the online one"})
+		}
+	}
+	// an address that returns from offline goes online again: wherever Parse tracks the sender (findOrCreateHostWithLock),
+	// the online transition that follows depends on nothing but "the host is not online" - not on whether the host was
+	// just created (a host that aged out stays in the table until the purge deadline and is found, not created)
+	r.Rule("returns-online", "after tracking the sender, Parse makes the online transition whenever the host is not online", 3)
+	if parse := c.A.Method("", "Session", "Parse"); parse != nil {
+		trans := callsIn(parse, nameIs("onlineTransition"))
+		for k, site := range callsIn(parse, nameIs("findOrCreateHostWithLock")) {
+			fins := site.(ssa.Instruction)
+			base := map[string]bool{}
+			for _, g := range guardsOf(fins) {
+				base[g.Text] = true
+			}
+			st, det := core.Violated, "no onlineTransition call follows this tracking site"
+			for _, t := range trans {
+				tins := t.(ssa.Instruction)
+				if !core.InstrDominates(fins, tins) {
+					continue
+				}
+				var extra []string
+				for _, g := range guardsOf(tins) {
+					if !base[g.Text] {
+						extra = append(extra, g.Text)
+					}
+				}
+				if len(extra) == 1 && regexp.MustCompile(`^!local\(frame\)\.Host\.Online$`).MatchString(extra[0]) {
+					st, det = core.Proved, ""
+					break
+				}
+				sort.Strings(extra)
+				det = "the online transition after this tracking site runs only if " + strings.Join(extra, " && ") + ": a tracked host that is not online (aged out, still in the table) sends a frame and stays offline, with no online notification"
+			}
+			r.Add(core.Obligation{Rule: "returns-online", Key: fmt.Sprintf("returns-online Parse tracking site %d", k+1), Func: core.FuncName(parse), Pos: c.P.Pos(core.PosOf(fins)), Status: st,
+				Basis: "guards(onlineTransition) minus guards(findOrCreateHostWithLock) = { !frame.Host.Online }", Detail: det})
 		}
 	}
 	// an address that ages out gets its offline notification: purge hands makeOffline exactly the online hosts whose own
